@@ -410,12 +410,111 @@ Proof.
   rewrite O1. apply Forall_app. split; [exact B1|]. constructor; [exact B3|constructor].
 Qed.
 
-Lemma split_top_level_refuted_lemma :
-  exists s pieces p, split_tex_string_gen sep_space s false true = Ok pieces /\
-                     In p pieces /\ cdepth_from 0 p <> 0.
+(* ---- every string: a group that is never closed swallows the rest of the string ---- *)
+Lemma fcb_pos_total : forall s level i last,
+  (exists u r, s = u ++ r /\ fcb_pos s (S level) i last = i + length u /\ 0 < length u /\
+               depth_from (S level) u = Some 0) \/
+  fcb_pos s (S level) i last = i + length s.
 Proof.
-  exists (s2l "{a{b}c d"), [s2l "{a{b}c"; s2l "d"], (s2l "{a{b}c").
-  split; [vm_compute; reflexivity|]. split; [left; reflexivity|vm_compute; discriminate].
+  induction s as [|c t IH]; intros level i last; [right; cbn; lia|].
+  cbn [fcb_pos]. unfold is_lbrace, is_rbrace.
+  destruct (N.eqb c c_lbrace) eqn:El.
+  - destruct (IH (S level) (S i) (S i)) as [(u & r & H1 & H2 & H3 & H4)|H].
+    + left. exists (c :: u), r. split; [cbn [app]; f_equal; exact H1|]. split; [rewrite H2; cbn [length]; lia|].
+      split; [cbn [length]; lia|]. cbn [depth_from]. rewrite El. exact H4.
+    + right. rewrite H. cbn [length]. lia.
+  - destruct (N.eqb c c_rbrace) eqn:Er.
+    + destruct level as [|l'].
+      * left. exists [c], t. split; [reflexivity|]. split; [cbn [length]; lia|]. split; [cbn [length]; lia|].
+        cbn [depth_from]. rewrite El, Er. reflexivity.
+      * destruct (IH l' (S i) (S i)) as [(u & r & H1 & H2 & H3 & H4)|H].
+        -- left. exists (c :: u), r. split; [cbn [app]; f_equal; exact H1|]. split; [rewrite H2; cbn [length]; lia|].
+           split; [cbn [length]; lia|]. cbn [depth_from]. rewrite El, Er. exact H4.
+        -- right. rewrite H. cbn [length]. lia.
+    + destruct (IH level (S i) last) as [(u & r & H1 & H2 & H3 & H4)|H].
+      * left. exists (c :: u), r. split; [cbn [app]; f_equal; exact H1|]. split; [rewrite H2; cbn [length]; lia|].
+        split; [cbn [length]; lia|]. cbn [depth_from]. rewrite El, Er. exact H4.
+      * right. rewrite H. cbn [length]. lia.
+Qed.
+
+Lemma find_closing_brace_total rest upto rest' : find_closing_brace rest = (upto, rest') ->
+  cz (c_lbrace :: upto) \/ rest' = [].
+Proof.
+  intros Ef. unfold find_closing_brace in Ef.
+  destruct (fcb_pos_total rest 0 0 0) as [(u & r & H1 & H2 & H3 & H4)|H].
+  - left. rewrite H2 in Ef. cbn [Nat.add] in Ef.
+    assert (E0 : Nat.eqb (length u) 0 = false) by (apply Nat.eqb_neq; lia).
+    rewrite E0 in Ef. injection Ef as <- <-.
+    rewrite H1. rewrite firstn_app, Nat.sub_diag, firstn_all, app_nil_r. cbn [firstn].
+    unfold cz. cbn [cdepth_from]. change (N.eqb c_lbrace c_lbrace) with true. cbv iota.
+    apply depth_cdepth. exact H4.
+  - right. rewrite H in Ef. cbn [Nat.add] in Ef.
+    destruct (Nat.eqb (length rest) 0); injection Ef as <- <-; [reflexivity|apply skipn_all].
+Qed.
+
+(* the loop invariant for every string: finished pieces return to clamped depth 0, separators
+   contain no opening brace; the word under construction is at depth 0 too, unless a
+   never-closed group has swallowed the rest of the string *)
+Lemma split_loop_cz m : forall fuel s pairs wp out,
+  split_loop fuel m s (map fst pairs) wp = Some out ->
+  Forall (matched m) (map snd pairs) ->
+  (wp = [] -> pairs = []) ->
+  Forall cz (map fst pairs) -> Forall nolb (map snd pairs) -> (cz (concat wp) \/ s = []) ->
+  (out = [] /\ s = [] /\ wp = []) \/
+  exists pairs' lastp,
+    out = map fst pairs' ++ [lastp] /\
+    flat pairs ++ concat wp ++ s = flat pairs' ++ lastp /\
+    Forall (matched m) (map snd pairs') /\
+    Forall cz (map fst pairs') /\ Forall nolb (map snd pairs').
+Proof.
+  induction fuel as [|f IH]; intros s pairs wp out Hsl Hm Hwp Hb Hn Hw; [discriminate|].
+  destruct s as [|c0 s0].
+  - cbn in Hsl. destruct wp as [|w wp'].
+    + injection Hsl as <-. rewrite (Hwp eq_refl). left. auto.
+    + injection Hsl as <-. right. exists pairs, (concat (w :: wp')). rewrite app_nil_r. auto.
+  - destruct Hw as [Hw|Hw]; [|discriminate]. remember (c0 :: s0) as s eqn:Es.
+    rewrite split_loop_unfold in Hsl.
+    destruct (partition_brace s) as [[head brace] rest] eqn:Ep.
+    destruct (partition_brace_spec s head brace rest Ep) as [Hs Hnolb].
+    destruct (head_step_spec cz nolb cz_app nolb_cz nolb_flat m head pairs wp)
+      as (pairs1 & wp1 & E1 & E2 & E3 & E4 & E5).
+    rewrite E1 in Hsl. destruct (E5 Hb Hn Hw Hnolb) as (B1 & B2 & B3). destruct brace.
+    + destruct (find_closing_brace rest) as [upto rest'] eqn:Ef.
+      pose proof (find_closing_brace_app rest upto rest' Ef) as Hrest.
+      assert (Hw2 : cz (concat (wp1 ++ [[c_lbrace]; upto])) \/ rest' = []).
+      { destruct (find_closing_brace_total rest upto rest' Ef) as [Hg|Hg]; [left|right; exact Hg].
+        rewrite concat_app. cbn [concat]. rewrite app_nil_r. apply cz_app; [exact B3|exact Hg]. }
+      destruct (IH rest' pairs1 (wp1 ++ [[c_lbrace]; upto]) out Hsl (E3 Hm)) as [(_ & _ & Hbad)|(pairs' & lastp & O1 & O2 & O3 & O4 & O5)]; try assumption.
+      * intros E. apply app_eq_nil in E as [_ E]. discriminate.
+      * apply app_eq_nil in Hbad as [_ Hbad]. discriminate.
+      * right. exists pairs', lastp. split; [exact O1|]. split; [|auto].
+        rewrite <- O2, Hs, Hrest. rewrite concat_app. cbn [concat]. rewrite app_nil_r.
+        rewrite (app_assoc (flat pairs)), (app_assoc (flat pairs ++ concat wp)).
+        rewrite <- (app_assoc (flat pairs)), E2. rewrite <- !app_assoc. reflexivity.
+    + injection Hsl as Hsl. rewrite app_nil_r in Hs. subst head.
+      destruct wp1 as [|w1 wp1'] eqn:Ew.
+      * destruct (E4 Hwp eq_refl) as (P1 & P2 & P3). subst. discriminate.
+      * right. exists pairs1, (concat (w1 :: wp1')). split; [symmetry; exact Hsl|]. split; [exact E2|]. auto.
+Qed.
+
+(* never splits inside braces, EVERY string: each piece but the last returns to (clamped)
+   brace depth 0 and no separator contains an opening brace -- so every separator lies at
+   depth 0; the last piece may be left open only by a group that is never closed *)
+Lemma split_top_level_all_lemma m s pieces :
+  split_tex_string_gen m s false false = Ok pieces ->
+  (s = [] /\ pieces = []) \/
+  exists pairs lastp,
+    pieces = map fst pairs ++ [lastp] /\
+    s = flat_map (fun ps => fst ps ++ snd ps) pairs ++ lastp /\
+    Forall (fun p => cdepth_from 0 p = 0) (map fst pairs) /\
+    Forall (Forall (fun c => is_lbrace c = false)) (map snd pairs) /\
+    Forall (matched m) (map snd pairs).
+Proof.
+  rewrite split_raw_unfold. destruct (split_loop _ m s [] []) as [r|] eqn:E; [|discriminate].
+  intros H. injection H as ->.
+  destruct (split_loop_cz m _ s [] [] pieces E (Forall_nil _) (fun _ => eq_refl) (Forall_nil _) (Forall_nil _) (or_introl eq_refl))
+    as [(H1 & H2 & _)|(pairs' & lastp & O1 & O2 & O3 & O4 & O5)]; [left; auto|].
+  right. exists pairs', lastp. cbn [flat flat_map concat app] in O2. auto 6.
 Qed.
 
 (* totality: the model's fuel |s|+1 suffices, split_tex_string never raises *)
